@@ -64,6 +64,10 @@ struct Scenario {
     kind: Kind,
     pre_advance: Option<Consistency>,
     peers: BTreeMap<NodeId, Peer>,
+    /// The cluster had only this many members (the issuer and the first others of the
+    /// layout) when the issuer made a selection at the same level; it has just grown to the
+    /// full layout when the write is issued.
+    grew_from: Option<usize>,
 }
 
 fn scenario_json(s: &Scenario) -> J {
@@ -73,6 +77,7 @@ fn scenario_json(s: &Scenario) -> J {
         .set("consistency", format!("{:?}", s.level))
         .set("operation", format!("{:?}", s.kind))
         .set("selection_made_before", s.pre_advance.map(|c| format!("{c:?}")))
+        .set("cluster_grew_from", s.grew_from.map(|k| k as u64))
         .set(
             "peers",
             J::Arr(s.peers.iter().map(|(n, p)| J::from(format!("{n}:{p:?}"))).collect()),
@@ -143,6 +148,13 @@ async fn execute(sc: &Scenario) -> Outcome {
     let mut out = Outcome::default();
     let mut cluster: Cluster<S> = Cluster::start(&sc.layout, |_| Arc::new(FaultStore::new(Arc::new(MemStore::default())))).await;
     let ii = cluster.index_of(sc.issuer);
+    if let Some(k) = sc.grew_from {
+        let mut small: Vec<(NodeId, String)> = sc.layout.iter().filter(|(n, _)| *n == sc.issuer).cloned().collect();
+        small.extend(sc.layout.iter().filter(|(n, _)| *n != sc.issuer).take(k.saturating_sub(1)).cloned());
+        cluster.nodes[ii].set_membership(&small).await;
+        let _ = cluster.nodes[ii].handle.select_nodes(sc.level).await;
+        cluster.nodes[ii].set_membership(&sc.layout).await;
+    }
     if let Some(pre) = sc.pre_advance {
         let _ = cluster.nodes[ii].handle.select_nodes(pre).await;
     }
@@ -243,6 +255,7 @@ fn judge(sc: &Scenario, out: &Outcome, st: &mut Stats) {
         Consistency::All => "all",
         _ => "quorum",
     };
+    let level_class = if sc.grew_from.is_some() { format!("{level_class}/after-cluster-growth") } else { level_class.to_string() };
     if out.selection_failed {
         st.inc("selection_failures_recorded");
         let others = sc.layout.len() - 1;
@@ -381,6 +394,7 @@ pub fn run(tier: Tier) -> i32 {
                                 kind: *kind,
                                 pre_advance: *pre,
                                 peers: peers.clone(),
+                                grew_from: None,
                             });
                         }
                     }
@@ -431,7 +445,25 @@ pub fn run(tier: Tier) -> i32 {
             for peers in assignments {
                 for level in [Consistency::All, Consistency::Quorum, Consistency::EachQuorum, Consistency::LocalQuorum, Consistency::Three] {
                     for kind in &kinds {
-                        scenarios.push(Scenario { layout: layout.clone(), issuer, level, kind: *kind, pre_advance: None, peers: peers.clone() });
+                        scenarios.push(Scenario { layout: layout.clone(), issuer, level, kind: *kind, pre_advance: None, peers: peers.clone(), grew_from: None });
+                    }
+                }
+            }
+        }
+    }
+    // the cluster has just grown: a selection made at the same level under the smaller
+    // membership must not decide who the write goes to (added after the seeded change C06-j)
+    for layout in layouts(tier.is_thorough()) {
+        if layout.len() < 3 {
+            continue;
+        }
+        for (issuer, _) in &layout {
+            let others: Vec<NodeId> = layout.iter().map(|(n, _)| *n).filter(|n| n != issuer).collect();
+            let peers: BTreeMap<NodeId, Peer> = others.iter().map(|n| (*n, Peer::Ack)).collect();
+            for level in LEVELS {
+                for k in 1..layout.len() {
+                    for kind in [Kind::Put, Kind::DelMany] {
+                        scenarios.push(Scenario { layout: layout.clone(), issuer: *issuer, level, kind, pre_advance: None, peers: peers.clone(), grew_from: Some(k) });
                     }
                 }
             }
@@ -440,6 +472,9 @@ pub fn run(tier: Tier) -> i32 {
     let parts = par::par_map(&scenarios, |_, sc| {
         let mut st = Stats::default();
         let out = vkit::e2::block_on_fresh(execute(sc));
+        if sc.grew_from.is_some() {
+            st.inc("executions_after_cluster_growth");
+        }
         judge(sc, &out, &mut st);
         if sc.peers.values().any(|p| *p != Peer::Ack) {
             st.inc("executions_with_a_failing_replica");
@@ -456,6 +491,7 @@ pub fn run(tier: Tier) -> i32 {
     let ok = total.get("calls_ok");
     let failed = total.get("calls_with_consistency_failure");
     let with_fault = total.get("executions_with_a_failing_replica");
+    let grown = total.get("executions_after_cluster_growth");
     let outcomes = total.distinct_count("outcomes");
     total.flush_into(&mut report);
     report.cover("evaluations", execs);
@@ -471,6 +507,8 @@ pub fn run(tier: Tier) -> i32 {
     report.guard_nonzero("guard_calls_ok", ok);
     report.guard_nonzero("guard_calls_with_consistency_failure", failed);
     report.guard_nonzero("guard_executions_with_a_failing_replica", with_fault);
+    report.cover("executions_after_cluster_growth", grown);
+    report.guard_nonzero("guard_executions_after_cluster_growth", grown);
     report.assume("'readable from storage' is judged through the storage read surface (iter_metadata + get) of every node at the moment the call returns");
     report.assume("the issuer's own storage does not fail (the property speaks about replicas failing to acknowledge)");
     report.assume("selection failures (NotEnoughNodes) are C15's subject; here they are only checked to be justified by the layout");
@@ -520,6 +558,7 @@ pub fn replay(case: &J) -> i32 {
         kind,
         pre_advance: case.get("selection_made_before").and_then(|v| v.as_str()).and_then(parse_level),
         peers,
+        grew_from: case.get("cluster_grew_from").and_then(|v| v.as_u64()).map(|k| k as usize),
     };
     let out = vkit::e2::block_on_fresh(execute(&sc));
     println!("{out:#?}");
